@@ -345,6 +345,34 @@ def cmd_check(argv):
         pool.run()
         pools.append(pool)
     search_s = time.time() - search_t0
+    # ---- thorough tier, C11: uninitialised reads are invisible to ASan; a valgrind pass over the plain binary
+    valgrind_info = None
+    if tier == "thorough" and prop == "C11" and shutil.which("valgrind"):
+        vexe, _, _ = build_variant("plain", rundir, log)
+        exes["plain"] = vexe
+        nproc, per = NCPU, 150
+        base = 30_000_000
+
+        def vg(i):
+            sc = os.path.join(scratch, "vg-%d" % i)
+            os.makedirs(sc, exist_ok=True)
+            a, b = base + i * per, base + (i + 1) * per
+            r = subprocess.run(["valgrind", "-q", "--error-exitcode=77", vexe, "run", "--prop", prop, "--tier", tier, "--seed", str(seed), "--from", str(a), "--to", str(b),
+                                "--scratch", sc, "--recheck", "0", "--deadline", "240"], stdout=subprocess.PIPE, stderr=subprocess.PIPE, text=True, errors="replace")
+            starts = [int(l.split()[1]) for l in r.stdout.splitlines() if l.startswith("START ")]
+            done = [l for l in r.stdout.splitlines() if l.startswith("DONE")]
+            return dict(rc=r.returncode, last=starts[-1] if starts else a, runs=len(starts), done=bool(done), err=r.stderr[-1500:])
+        with ThreadPoolExecutor(nproc) as ex:
+            res = list(ex.map(vg, range(nproc)))
+        valgrind_info = dict(runs=sum(r["runs"] for r in res), errors=sum(1 for r in res if r["rc"] == 77))
+        for r in res:
+            if r["rc"] == 77:
+                path = os.path.join(ROOT, "replays", "%s-%x-valgrind-%d.json" % (prop, seed, r["last"]))
+                rc, out = qsim_lines([vexe, "gen", "--prop", prop, "--tier", tier, "--seed", str(seed), "--index", str(r["last"])])
+                open(path, "w").write(out)
+                log.write(r["err"])
+                violations.append(("valgrind (memcheck) reported an error in or before this run of the plain binary; replay it under `valgrind -q`: " + r["err"].strip().splitlines()[0][:200] if r["err"].strip() else "valgrind error", path,
+                                   {"class": "valgrind", "oracle": "mem", "sig": "valgrind"}))
     # ---- triage failures: minimise, gate, match known findings
     cand = []
     for pool in pools:
@@ -404,6 +432,8 @@ def cmd_check(argv):
             violations.append((kv.get("detail", ""), out_path, kv))
     # ---- evidence
     ev = build_evidence(prop, tier, seed, level, pools, variants, notes, known_seen, violations, fail_counts, harness_errors, build_s, search_s, time.time() - t0, regress)
+    if valgrind_info:
+        ev["coverage"]["valgrind_pass"] = valgrind_info
     json.dump(ev, open(os.path.join(ROOT, "evidence", "%s.json" % prop), "w"), indent=1)
     for what, path, kv in violations:
         print("VIOLATION property=%s replay=%s" % (prop, path))
